@@ -77,7 +77,9 @@ PROPS = {
     "C09": dict(theorems=["C09_struct_order_independent_partial", "C09_fields_order_independent_partial", "C09_deep_order_independent_partial", "C09_deep_premise_is_satisfiable", "C09_input_key_order_irrelevant", "C09_error_state_irrelevant_without_transforms", "C09_engine_computes_semantics", "C09_message_independent_of_parameter_order", "C09_one_pass_is_simultaneous_substitution", "C09_legacy_message_depends_on_order_refuted", "C09_repair_keeps_brace_free_messages"], cone=ENGINE_CONE + ["Proofs/Indep.v", "Proofs/DeepOrder.v", "Model/Fmt.v", "Gen/Tables.v", "Proofs/FmtOrderP.v"], rule=ENGINE_RULE,
                 families=[eng("engine", "C09", 1000, 16000, ["repeat", "repeat_ptgate", "panic", "nil", "issues", "dest"]),
                           # one schema object at two places of a larger schema whose destinations lay the fields out differently: each place as an independent copy, on every run
-                          dict(name="shared", family="builder", profile="default", quick=120, thorough=1000, shard=150, tags=["share"])]),   # + the tie itself: an outcome no visit order of the (order-independent) model explains
+                          dict(name="shared", family="builder", profile="default", quick=120, thorough=1000, shard=150, tags=["share"]),
+                          # the front ends hand the same record over on every run (parameters that look like numbered list entries included)
+                          dict(name="fe", family="fe", profile="fe", quick=600, thorough=8000, tags=["nil", "issues", "dest", "panic"])]),   # + the tie itself: an outcome no visit order of the (order-independent) model explains
     "C10": dict(theorems=["C10_map_wf", "C10_paths", "C10_sanitize", "C10_field_key", "C10_nested_source_tag_refuted", "C10_engine_computes_semantics"], cone=ENGINE_CONE + ["Proofs/ErrsP.v", "Proofs/FrontEndsP.v"], rule=ENGINE_RULE,
                 families=[eng("engine", "C10", 1200, 20000, ["issues", "first", "panic", "sanitize"]),
                           # the map of a call after arbitrary earlier calls (Collect helpers, undecodable bodies): still keyed by its own issues' paths
